@@ -72,6 +72,16 @@ func (x *Exec) oblige(st *State, name string, goal *Term, what string) {
 		x.pathNaming[full] = true
 	}
 	assume := x.assumptions(st)
+	if len(st.gen) > 0 {
+		// generalisation is applied uniformly to hypotheses and goal (proving the more general VC)
+		cache := map[int]*Term{}
+		na := make([]*Term, len(assume))
+		for i, t := range assume {
+			na[i] = replaceTerms(t, st.gen, cache)
+		}
+		assume = na
+		goal = replaceTerms(goal, st.gen, cache)
+	}
 	goals := []*Term{goal}
 	if x.splitGoals {
 		goals = splitGoal(goal, 0)
@@ -924,6 +934,12 @@ func (x *Exec) generalize(st *State, env *Env, name string) {
 	}
 	if len(m) == 0 {
 		return
+	}
+	if st.gen == nil {
+		st.gen = map[int]*Term{}
+	}
+	for k, t := range m {
+		st.gen[k] = t
 	}
 	cache := map[int]*Term{}
 	rep := func(t *Term) *Term { return replaceTerms(t, m, cache) }
